@@ -284,7 +284,6 @@ func allBases() ([]baseFile, error) {
 		{name: "sample", family: "sample", text: string(sample), skip: []string{"anchors/"}},
 		{name: "mini-schema", family: "schema", text: skeleton(parts{}), focus: []string{"schema"}},
 		{name: "mini-input", family: "input", text: skeleton(parts{}), focus: []string{"inputs"}},
-		{name: "mini-toplevel", family: "toplevel", text: skeleton(parts{}), focus: []string{"@top"}},
 	}
 	for _, t := range transformSnippets {
 		bases = append(bases, baseFile{
@@ -305,7 +304,7 @@ func allBases() ([]baseFile, error) {
 	for _, r := range rewriterSnippets {
 		bases = append(bases, baseFile{
 			name: "r-" + r.name, family: "rewriter", text: skeleton(parts{output: fluentdOutput("CompressedPackedForward", r.yaml)}),
-			focus: []string{"outputBufferPairs/[0]/output/serialization"},
+			focus: []string{"outputBufferPairs/[0]/output/serialization/rewriteFields"},
 		})
 	}
 	bases = append(bases,
